@@ -19,13 +19,24 @@ let res_str f = function C02_Ok v -> "OK " ^ f v | C02_FMatrixError -> "EXC FMat
 let chk = Array.exists (fun a -> a = "chk") Sys.argv
 let m_solve ops a b piv = if chk then c02_solve_chk ops a b piv else c02_solve ops a b piv
 let m_invert ops a piv = if chk then c02_invert_chk ops a piv else c02_invert ops a piv
+(* the matrix object after invert(): the inverse, or (after an exception) the unchanged matrix — c02_call_invert *)
+let invert_obs ops a piv dflt flat =
+  if chk then (match c02_invert_chk ops a piv with C02_Ok b -> "OK " ^ flat b | C02_FMatrixError -> "EXC FMatrixError | U" | C02_DivByZero -> "EXC DivByZero | U")
+  else
+    let o = { ob_A = a; ob_b = [] } in
+    let r = if dflt then (match c02_invert_dflt ops a with C02_Ok b -> (C02_Ok (), { ob_A = b; ob_b = [] }) | C02_FMatrixError -> (C02_FMatrixError, o) | C02_DivByZero -> (C02_DivByZero, o))
+            else c02_call_invert ops o piv in
+    (match r with
+     | (C02_Ok (), o') -> "OK " ^ flat o'.ob_A
+     | (C02_FMatrixError, o') -> "EXC FMatrixError | " ^ (if o'.ob_A = a then "U" else "MOD")
+     | (C02_DivByZero, o') -> "EXC DivByZero | " ^ (if o'.ob_A = a then "U" else "MOD"))
 
 let () =
   let ic = open_in Sys.argv.(Array.length Sys.argv - 1) in
   (try while true do
     let line = input_line ic in
     let t = Array.of_list (List.filter (fun s -> s <> "") (String.split_on_char ' ' (String.trim line))) in
-    let p = int_of_string t.(0) and kind = t.(1) and op = t.(2) and n = int_of_string t.(3) and piv = t.(4) <> "0" (* 2 = default argument = true *) in
+    let p = int_of_string t.(0) and kind = t.(1) and op = t.(2) and n = int_of_string t.(3) and piv = t.(4) <> "0" and dflt = t.(4) = "2" (* 2: the call uses the default argument: c02_*_dflt *) in
     let ops = c02_zp (z_of_int p) in
     let v = Array.map (fun s -> z_of_int (((int_of_string s) mod p + p) mod p)) (Array.sub t 5 (Array.length t - 5)) in
     let mat off = List.init n (fun i -> List.init n (fun j -> v.(off + i * n + j))) in
@@ -40,9 +51,9 @@ let () =
           String.concat " " [ (match m_solve ops a b true with C02_Ok _ -> "OK" | C02_FMatrixError -> "EXC FMatrixError" | C02_DivByZero -> "EXC DivByZero");
                               (match c02_determinant ops a true with C02_Ok _ -> "OK" | C02_FMatrixError -> "EXC FMatrixError" | C02_DivByZero -> "EXC DivByZero");
                               (match m_invert ops a true with C02_Ok _ -> "OK" | C02_FMatrixError -> "EXC FMatrixError" | C02_DivByZero -> "EXC DivByZero") ]
-      | ("F" | "D" | "X" | "Y"), "solve" -> let a = mat 0 in res_str strs (m_solve ops a (vec (n * n)) piv) ^ " | U" ^ specdet a
-      | ("F" | "D" | "X" | "Y"), "det" -> let a = mat 0 in res_str (fun d -> strs [d]) (c02_determinant ops a piv) ^ " | U" ^ specdet a
-      | ("F" | "D" | "X" | "Y"), "invert" -> let a = mat 0 in res_str flat (m_invert ops a piv) ^ specdet a
+      | ("F" | "D" | "X" | "Y"), "solve" -> let a = mat 0 in res_str strs (if dflt && not chk then c02_solve_dflt ops a (vec (n * n)) else m_solve ops a (vec (n * n)) piv) ^ " | U" ^ specdet a
+      | ("F" | "D" | "X" | "Y"), "det" -> let a = mat 0 in res_str (fun d -> strs [d]) (if dflt then c02_determinant_dflt ops a else c02_determinant ops a piv) ^ " | U" ^ specdet a
+      | ("F" | "D" | "X" | "Y"), "invert" -> let a = mat 0 in invert_obs ops a piv dflt flat ^ specdet a
       | ("F" | "D" | "X" | "Y"), "seq" ->
           (* det, solve, invert, det of the inverse, invert back, solve again — composed from the model functions *)
           let a = mat 0 and b = vec (n * n) in
